@@ -173,6 +173,31 @@ class G:
                 return Obj([("$numberLong", str(self.num()))]) if False else Obj([("$date", Obj([("$numberLong", "1700000000000")]))])
             if k == 5:
                 return Obj([("$regularExpression", Obj([("pattern", self.sstr()), ("options", "i")]))])
+            if k == 6:
+                # the other extended-JSON wrappers; their payloads are client literals (strings)
+                self.n += 1
+                w = r.below(8)
+                if w == 0:
+                    u = "%08x-%04x-%d%03x-%s%03x-%012x" % (0x5a000000 + self.n, r.below(1 << 16), 1 + r.below(5), r.below(1 << 12), r.choice("89ab"), r.below(1 << 12), self.n * 104729)
+                    self.roles[u] = "S"
+                    return Obj([("$uuid", u)])
+                if w == 1:
+                    t = "91%05d37" % self.n
+                    self.roles[t] = "S"
+                    return Obj([(r.choice(["$numberLong", "$numberInt"]), t)])
+                if w == 2:
+                    t = "91%05d37.25" % self.n
+                    self.roles[t] = "S"
+                    return Obj([(r.choice(["$numberDecimal", "$numberDouble"]), t)])
+                if w == 3:
+                    return Obj([(r.choice(["$symbol", "$code"]), self.sstr())])
+                if w == 4:
+                    return Obj([("$timestamp", Obj([("t", self.num()), ("i", self.num())]))])
+                if w == 5:
+                    return Obj([(r.choice(["$minKey", "$maxKey"]), Num("1"))])
+                if w == 6:
+                    return Obj([("$dbPointer", Obj([("$ref", self.sstr()), ("$id", Obj([("$oid", self.oid())]))]))])
+                return Obj([("$uuid", self.sstr())])
         return self.scalar_lit()
 
     # ---------------------------------------------------------------- query language
@@ -632,6 +657,8 @@ VALUE_KINDS = [
     ("arrlit", lambda: ["alit", Num("7"), "$r"]), ("arrarr", lambda: [["alit2"], []]), ("arrobj", lambda: [Obj([("k", "olit")])]),
     ("obj", lambda: Obj([("k", "olit2"), ("n", Num("3"))])), ("badwrap", lambda: Obj([("$date", Num("1")), ("$oid", None), ("$binary", Obj([("base64", Num("2"))]))])),
     ("objop", lambda: Obj([("$eq", "oplit"), ("$in", ["inlit"])])),
+    ("uuid", lambda: Obj([("$uuid", "3f2b8c1e-9a4d-4e7b-8c21-5d6f7a8b9c0d")])), ("uuidstr", lambda: "3f2b8c1e-9a4d-4e7b-8c21-5d6f7a8b9c0d"),
+    ("long", lambda: Obj([("$numberLong", "9223372036854775807")])), ("dec", lambda: Obj([("$numberDecimal", "1.50")])),
 ]
 
 
